@@ -43,6 +43,7 @@ structure Event (Loc : Type) where
   tid : Tid
   loc : Loc
   isWrite : Bool
+  deriving DecidableEq
 
 variable {Loc Val Local : Type} [DecidableEq Loc]
 
